@@ -16,6 +16,7 @@ def run(rep):
     s1(rep, w)
     s2(rep, w)
     s3(rep, w)
+    s4(rep, w)
 
 
 def s1(rep, w):
@@ -39,9 +40,19 @@ def s1(rep, w):
                 used.add(f.path)
                 r.ok(key + ' (operand-only: %s)' % tab[f.path]['why'])
                 continue
-            ok = any(cb in dom.get(bi, ()) for cb in closers)
-            r.check(ok, key, 'the value stack is lowered without closing the open upvalues that point into the dropped region first: a '
-                    'closure that captured one of those variables now reads/writes whatever reuses the slot', f.loc(f.blocks[bi]['t'].get('sp')))
+            doms = [cb for cb in closers if cb in dom.get(bi, ())]
+            ok = bool(doms)
+            if r.check(ok, key, 'the value stack is lowered without closing the open upvalues that point into the dropped region first: a '
+                       'closure that captured one of those variables now reads/writes whatever reuses the slot', f.loc(f.blocks[bi]['t'].get('sp'))):
+                # S1': the closer must start at the new height (closing fewer slots than are dropped leaves dangling upvalues)
+                org = origins(f)
+                want = height_identity(f, org, bi, name)
+                got = set()
+                for cb in doms:
+                    got |= closer_identity(f, org, cb)
+                agree = bool(want & got)
+                r.check(agree, key + ' / closes from the new height', 'upvalues are closed from %s but the stack is lowered to %s: open upvalues between the '
+                        'two heights keep pointing at dropped slots' % (sorted(map(str, got))[:3], sorted(map(str, want))[:3]), f.loc(f.blocks[bi]['t'].get('sp')))
     for k in tab:
         if k not in used:
             r.note('operand-only entry unused on this tree: ' + k)
@@ -59,6 +70,45 @@ def s1(rep, w):
     gets = [bi for bi, t in cl.calls() if callee_name(t) == 'yarel::object::ObjUpvalue::get']
     closed = any(s.get('r', {}).get('rv') == 'agg' and s['r'].get('v') == 'Closed' for b in cl.blocks for s in b['s'])
     r.check(bool(gets) and closed, 'ObjUpvalue::close copies the current value into Closed(..)', 'close() no longer snapshots the variable', cl.loc())
+
+
+def ident(org, o):
+    """identity of an index value: constants by value, otherwise origin root + field tokens"""
+    k = op_const(o)
+    if k is not None and 'v' in k:
+        return {('const', k['v'])}
+    pl = op_place(o)
+    out = set()
+    if pl is None:
+        return out
+    for q in org.get(pl['l'], {(('local', pl['l']),)}):
+        toks = tuple(t for t in q[1:] if not t.startswith('@') and t != '*' and not t.startswith('in ') and not t.startswith('as '))
+        if q[0][0] == 'const':
+            out.add(('const', q[0][1]) + toks)
+        else:
+            out.add(toks if toks else (q[0],))
+    return out
+
+
+def height_identity(f, org, bi, name):
+    t = f.blocks[bi]['t']
+    if name.endswith('::clear'):
+        return {('const', 0)}
+    if name.endswith('::pop'):
+        return {('top',)}
+    return ident(org, t['args'][1])
+
+
+def closer_identity(f, org, cb):
+    t = f.blocks[cb]['t']
+    n = callee_name(t)
+    if n.endswith('close_upvalues_for_frame'):
+        return {('slot_base',)}
+    out = ident(org, t['args'][1])
+    # `stack_size() - 1` = the top slot
+    if any(x and x[-1:] == ('#bin',) for x in out) or any('#bin' in x for x in out):
+        out = out | {('top',)}
+    return out
 
 
 def s2(rep, w):
@@ -177,3 +227,58 @@ def s3(rep, w):
     incs = [bi for bi in au.normal_blocks() for s in au.blocks[bi]['s'] if s.get('r', {}).get('rv') == 'bin' and s['r']['op'].startswith('Add')]
     ok = bool(pushes) and bool(incs) and all(any(i in au.reachable_blocks(p) for i in incs) for p in pushes)
     r.check(ok, 'add_upvalue: push and count += 1 on the same path', 'upvalues.push and upvalue_count += 1 are no longer paired', au.loc())
+
+
+def s4(rep, w):
+    """close_upvalues stops at the first list entry below its threshold, so it closes everything it must only if the open-upvalue
+    list is ordered by descending stack address; capture_upvalue is the only function that inserts, so it must insert in order:
+    search with an ordering comparison on the slot address and be able to link the new node behind a predecessor."""
+    r = rep.rule('S4', 'the open-upvalue list stays address-ordered: close_upvalues relies on it, capture_upvalue inserts in order', floor=3)
+    cu = w.require_fn('yarel::object::ObjFiber::close_upvalues', 'C06')
+    # does close_upvalues stop early (loop exit decided by the predicate on the head entry)?
+    early = False
+    for bi, t in cu.calls():
+        if callee_name(t) == 'yarel::object::ObjUpvalue::is_open_with_pred':
+            b = t.get('to')
+            for _ in range(6):
+                tt = cu.blocks[b]['t']
+                if tt['t'] == 'switch':
+                    early = True
+                    break
+                b = tt.get('to') if tt['t'] in ('goto', 'drop', 'call') else None
+                if b is None:
+                    break
+    cap = w.require_fn(VM + 'capture_upvalue', 'C06')
+    org = origins(cap)
+    # who writes the list links?
+    link_writers = sorted({g.path for (g, sp, k) in c01.field_writers(w, 'yarel::object::ObjUpvalue', 'next') if k == 'store'} |
+                          {g.path for (g, sp, k) in c01.field_writers(w, 'yarel::object::ObjFiber', 'open_upvalues') if k == 'store'})
+    r.check(set(link_writers) <= {cap.path, cu.path}, 'open-upvalue list links are written only by capture_upvalue and close_upvalues',
+            'the open-upvalue list is also relinked in %s' % sorted(set(link_writers) - {cap.path, cu.path}))
+    ordered_cmp = False
+    for g in [cap] + [x for x in w.fns.values() if x.kind == 'Closure' and x.parent == cap.path]:
+        for b in g.blocks:
+            for s in b['s']:
+                rr = s.get('r', {})
+                if rr.get('rv') == 'bin' and rr['op'] in ('Gt', 'Lt', 'Ge', 'Le'):
+                    pa = op_place(rr['a'])
+                    if pa is not None and g.crate.tstr(pa.get('t', g.local_ty(pa['l']))).startswith('*'):
+                        ordered_cmp = True
+    pred_link = False
+    for bi in cap.normal_blocks():
+        for s in cap.blocks[bi]['s']:
+            d = s.get('d', {})
+            if d.get('p') and isinstance(d['p'][-1], dict) and d['p'][-1].get('n') == 'next' and c01.base_type_before_last(cap, d) == 'yarel::object::ObjUpvalue':
+                roots = {q[0] for q in org.get(d['l'], ())}
+                if not any(x[0] == 'call' and x[2].endswith('Root::<T>::new') for x in roots):
+                    pred_link = True
+    if early:
+        r.check(ordered_cmp, 'capture_upvalue searches the list with an ordering comparison on slot addresses',
+                'close_upvalues stops at the first entry below its threshold (it assumes descending address order) but capture_upvalue no longer '
+                'orders by address: an upvalue inserted out of order is skipped when its scope ends and keeps pointing at a dead slot', cap.loc())
+        r.check(pred_link, 'capture_upvalue can link a new upvalue behind a predecessor (insertion in the middle)',
+                'capture_upvalue only ever links at the head of the list, so the list is in capture order, not address order, while close_upvalues '
+                'stops at the first entry below its threshold: a later-declared variable captured first is never closed', cap.loc())
+    else:
+        r.ok('close_upvalues examines every entry (no ordering assumption)')
+        r.ok('ordering of insertions irrelevant')
